@@ -1,6 +1,175 @@
 package check
 
-import "govc/internal/vc"
+import (
+	"encoding/json"
+	"fmt"
+	"os"
+	"os/exec"
+	"path/filepath"
+	"regexp"
+	"strings"
+	"time"
 
-// replay tries to reproduce a failed obligation on the real code; drivers are added per function group.
-func replay(o Options, w *vc.World, g *group, path string) bool { return false }
+	"govc/internal/vc"
+)
+
+// A replay driver is an in-package Go test (a file under /verif/replay) that rebuilds the inputs of a real function
+// from the values of a solver model, runs the real function of the tree under check, and compares what it does with an
+// oracle written independently of the code. It prints one line:
+//
+//	REPLAY-CONFIRMED: <what the real code did, what the oracle expects>
+//	REPLAY-NOT-REPRODUCED: <why>
+//	REPLAY-NOT-REPLAYABLE: <why>          (e.g. the model asks for a gigabyte payload)
+//
+// drivers.json maps unit-name patterns to drivers.
+type driver struct {
+	Unit   string `json:"unit"`    // regular expression on the unit name
+	Pkg    string `json:"pkg"`     // package directory relative to the repository
+	File   string `json:"file"`    // test file under the replay directory
+	Test   string `json:"test"`    // test function to run
+	Helper string `json:"helper"`  // optional second file injected with it
+}
+
+func loadDrivers(dir string) []driver {
+	b, err := os.ReadFile(filepath.Join(dir, "drivers.json"))
+	if err != nil {
+		return nil
+	}
+	var ds []driver
+	json.Unmarshal(b, &ds)
+	return ds
+}
+
+// modelValues parses the "label = value" lines of a counterexample into a map; bit-vector literals become decimal
+// strings (two's complement for 64-bit values), booleans "true"/"false".
+func modelValues(model string) map[string]string {
+	out := map[string]string{}
+	for _, l := range strings.Split(model, "\n") {
+		i := strings.Index(l, " = ")
+		if i < 0 {
+			continue
+		}
+		k, v := strings.TrimSpace(l[:i]), strings.TrimSpace(l[i+3:])
+		switch {
+		case strings.HasPrefix(v, "#x"):
+			var u uint64
+			fmt.Sscanf(v[2:], "%x", &u)
+			bits := (len(v) - 2) * 4
+			if bits == 64 {
+				v = fmt.Sprintf("%d", int64(u))
+			} else {
+				v = fmt.Sprintf("%d", u)
+			}
+		case strings.HasPrefix(v, "#b"):
+			var u uint64
+			fmt.Sscanf(v[2:], "%b", &u)
+			v = fmt.Sprintf("%d", u)
+		}
+		out[k] = v
+	}
+	return out
+}
+
+// replay tries to reproduce a failed obligation on the real code. It returns true when the driver confirmed a deviation
+// of the real code from the oracle on the model's input.
+func replay(o Options, w *vc.World, g *group, path string) bool {
+	note := func(status, detail string) {
+		b, err := os.ReadFile(path)
+		if err != nil {
+			return
+		}
+		rec := map[string]any{}
+		if json.Unmarshal(b, &rec) != nil {
+			return
+		}
+		rec["replay_status"] = status
+		rec["replay_output"] = detail
+		rec["replayed_on_real_code"] = status == "confirmed"
+		nb, _ := json.MarshalIndent(rec, "", " ")
+		os.WriteFile(path, nb, 0o644)
+	}
+	if g.Model == "" || strings.HasPrefix(g.Model, "model extraction failed") {
+		note("no-model", "the solver produced no model for this obligation ("+g.Detail+")")
+		return false
+	}
+	var d *driver
+	for _, cand := range loadDrivers(o.ReplayDir) {
+		if re, err := regexp.Compile(cand.Unit); err == nil && re.MatchString(g.Unit) {
+			c := cand
+			d = &c
+			break
+		}
+	}
+	if d == nil {
+		note("no-driver", "no replay driver is registered for "+g.Unit)
+		return false
+	}
+	tmp, err := os.MkdirTemp(tmpBase(), "govc-replay-")
+	if err != nil {
+		note("error", err.Error())
+		return false
+	}
+	defer os.RemoveAll(tmp)
+	in := map[string]any{"unit": g.Unit, "obligation": g.Name, "tag": g.Tag, "clause": g.Text, "values": modelValues(g.Model)}
+	ib, _ := json.MarshalIndent(in, "", " ")
+	inFile := filepath.Join(tmp, "input.json")
+	os.WriteFile(inFile, ib, 0o644)
+	repl := map[string]string{}
+	for _, f := range []string{d.File, d.Helper} {
+		if f == "" {
+			continue
+		}
+		src, err := filepath.Abs(filepath.Join(o.ReplayDir, f))
+		if err != nil {
+			continue
+		}
+		repl[filepath.Join(o.Repo, d.Pkg, "zz_govc_replay_"+filepath.Base(f))] = src
+	}
+	ov, _ := json.Marshal(map[string]any{"Replace": repl})
+	ovFile := filepath.Join(tmp, "overlay.json")
+	os.WriteFile(ovFile, ov, 0o644)
+	cmd := exec.Command("go", "test", "-overlay", ovFile, "-vet=off", "-count=1", "-timeout", "60s", "-run", "^"+d.Test+"$", "-v", "./"+d.Pkg+"/")
+	cmd.Dir = o.Repo
+	cmd.Env = append(os.Environ(), "GOFLAGS=-mod=mod", "GOPROXY=off", "GOVC_REPLAY_INPUT="+inFile)
+	done := make(chan struct{})
+	var out []byte
+	go func() { out, _ = cmd.CombinedOutput(); close(done) }()
+	select {
+	case <-done:
+	case <-time.After(150 * time.Second):
+		if cmd.Process != nil {
+			cmd.Process.Kill()
+		}
+		note("error", "replay driver timed out")
+		return false
+	}
+	text := string(out)
+	line := ""
+	for _, l := range strings.Split(text, "\n") {
+		if i := strings.Index(l, "REPLAY-"); i >= 0 {
+			line = strings.TrimSpace(l[i:])
+		}
+	}
+	if len(text) > 6000 {
+		text = text[len(text)-6000:]
+	}
+	switch {
+	case strings.HasPrefix(line, "REPLAY-CONFIRMED"):
+		note("confirmed", line+"\n--- driver output ---\n"+text)
+		// keep the input next to the replay record so that the replay can be repeated by hand
+		os.WriteFile(strings.TrimSuffix(path, ".json")+".input.json", ib, 0o644)
+		return true
+	case strings.HasPrefix(line, "REPLAY-NOT-REPRODUCED"), strings.HasPrefix(line, "REPLAY-NOT-REPLAYABLE"):
+		note("not-reproduced", line+"\n--- driver output ---\n"+text)
+	default:
+		note("error", "driver printed no verdict\n"+text)
+	}
+	return false
+}
+
+func tmpBase() string {
+	if b := os.Getenv("TMPDIR"); b != "" {
+		return b
+	}
+	return "/var/tmp"
+}
